@@ -109,7 +109,8 @@ ASDisconnect(id) == Can /\ "disconnect" \in Calls /\ ById(w, id) # 0 /\ Apply(Do
 ACDisconnect(c) == Can /\ "disconnect" \in Calls /\ w.cl[c].state = "Conn" /\ Apply(DoCDisconnect(w, c), [a |-> "cdisconnect", c |-> c, as |-> NextName])
 \* the client leaves and its disconnect packet reaches the server (one step)
 ACLeave(c) ==
-    /\ Can /\ "leave" \in Calls /\ w.cl[c].state = "Conn"
+    \* a client may also give up in the middle of the handshake (its disconnect datagram then finds a half-open session or none)
+    /\ Can /\ "leave" \in Calls /\ w.cl[c].state # "Disc"
     /\ LET r1 == DoCDisconnect(w, c)
            r2 == DoSDeliver(r1.w, Len(r1.w.net), Clients[c].addr)
        IN /\ w' = r2.w
